@@ -8,7 +8,7 @@ META = {
     'refill': True,      # cases presented in a reused buffer are followed by a refill of that buffer (runner)
     'rule': ('history = rdp_fixed(P, k) for every k in 0..n+1 on one curve x Distance x Order; consecutive members are '
              'checked for exact size min(max(k,2),n), nesting, the gained index being a farthest interior point of its '
-             'segment (independent long-double geometry, noise floor 64*eps*(largest coordinate difference to the segment start + chord)) and that segment attaining the maximal ordering score '
+             'segment (independent long-double geometry, noise floor = forward error of the cross-product distance, 64*eps*max(|v0*w1|+|v1*w0|)/|v|; 5 % of the curves with x in bytes (times 2^20..2^40) and y in [0,1]) and that segment attaining the maximal ordering score '
              '(recomputed with the saved primitives on the same slice, ties within 1e-12 relative accepted) among '
              'retained segments with interior points; an online monitor on the _rdp_fixed loop additionally asserts '
              'that the entry about to be popped carries the maximal stored priority. distinct = digest(curve, '
